@@ -226,7 +226,45 @@ def cmd_sensitivity(a):
     return 2 if badn else 0
 
 
+def cmd_seeded(a):
+    """Every independent seeded change under /verif/seeded must be reported by its property's quick check."""
+    base = os.path.join(core.VERIF, "seeded")
+    rows = []
+    only = a.only.split(",") if a.only else None
+    for sid in sorted(os.listdir(base)):
+        if only and sid not in only:
+            continue
+        meta = json.load(open(os.path.join(base, sid, "meta.json")))
+        prop = meta["property"]
+        d = tempfile.mkdtemp(prefix="nc-seed-")
+        try:
+            subprocess.run(["cp", "-r", "/repo/.", d], check=True)
+            r = subprocess.run(["git", "apply", os.path.join(base, sid, "patch.diff")], cwd=d)
+            if r.returncode != 0:
+                rows.append((sid, prop, "PATCH-FAILED"))
+                print("%-6s %-4s PATCH-FAILED" % (sid, prop))
+                continue
+            env = dict(os.environ, VERIF_REPO=d, VERIF_EVIDENCE_DIR=os.path.join(d, ".evidence"))
+            t0 = time.perf_counter()
+            p = subprocess.run([core.PY, os.path.join(core.VERIF, "check"), prop, "--tier", "quick"] +
+                               (["--scale", str(a.scale)] if a.scale else []), env=env, capture_output=True, text=True, timeout=3600)
+            tag = ""
+            for l in p.stdout.splitlines():
+                if "first: family=" in l:
+                    tag = l.strip().split("first: ")[1]
+            verdict = "ok" if p.returncode == 1 else "MISSED(exit %d)" % p.returncode
+            rows.append((sid, prop, verdict))
+            print("%-6s %-4s %-14s %5.1fs %s" % (sid, prop, verdict, time.perf_counter() - t0, tag), flush=True)
+        finally:
+            shutil.rmtree(d, ignore_errors=True)
+    bad = sum(1 for r in rows if r[2] != "ok")
+    print("selftest-seeded: %d changes, %d not reported" % (len(rows), bad))
+    return 2 if bad else 0
+
+
 def main(a):
+    if a.what == "selftest-seeded":
+        return cmd_seeded(a)
     if a.what == "selftest-digests":
         return cmd_digests(a)
     if a.what == "selftest-determinism":
